@@ -114,6 +114,13 @@ Section Manager.
   Definition um_sync (uid name : bytes) (snaps : list bytes) (d : db) : db * bytes :=
     um_backup uid name (fold_left (fun d f => fst (um_restore uid name f d)) snaps d).
 
+  (** [Synchronize]'s return value: every snapshot merged (the final Backup cannot fail here) *)
+  Definition um_sync_ok (uid name : bytes) (snaps : list bytes) (d : db) : bool :=
+    snd (fold_left (fun (db_ok : db * bool) f =>
+                      let (d', r) := um_restore uid name f (fst db_ok) in
+                      (d', snd db_ok && match r with RestoreOk => true | _ => false end))
+                   snaps (d, true)).
+
   (** * a world of installations *)
 
   Record world := {
@@ -152,37 +159,51 @@ Section Manager.
   Definition snaps_in_order (w : world) (order : list nat) : list bytes :=
     flat_map (fun j => match nth j (w_snaps w) None with Some f => [f] | None => [] end) order.
 
-  Definition step (w : world) (o : op) : world :=
+  Definition restore_code (r : restore_result) : Z :=
+    match r with RestoreOk => 1 | RestoreFailed => 0 | RestoreOtherDb => -3 end%Z.
+  Definition NOFILE : Z := (-2)%Z.
+
+  (** one operation: the new world and what the call returned (bool as 0/1, counts, -1) *)
+  Definition step_ret (w : world) (o : op) : world * Z :=
     match o with
     | OBackup i =>
         let (d, f) := um_backup (uid_of i) dict_name (get_db w i) in
-        set_snap (set_db w i d) i f
+        (set_snap (set_db w i d) i f, 1%Z)
     | ORestore i j =>
         match nth j (w_snaps w) None with
-        | Some f => set_db w i (fst (um_restore (uid_of i) dict_name f (get_db w i)))
-        | None => w
+        | Some f =>
+            let (d, r) := um_restore (uid_of i) dict_name f (get_db w i) in
+            (set_db w i d, restore_code r)
+        | None => (w, NOFILE)
         end
     | OSync i order =>
-        let (d, f) := um_sync (uid_of i) dict_name (snaps_in_order w order) (get_db w i) in
-        set_snap (set_db w i d) i f
+        let snaps := snaps_in_order w order in
+        let (d, f) := um_sync (uid_of i) dict_name snaps (get_db w i) in
+        (set_snap (set_db w i d) i f, if um_sync_ok (uid_of i) dict_name snaps (get_db w i) then 1%Z else 0%Z)
     | OExport i s =>
         match um_export (get_db w i) with
-        | Some (f, _) => set_file w s f
-        | None => w
+        | Some (f, n) => (set_file w s f, Z.of_nat n)
+        | None => (w, (-1)%Z)
         end
     | OImport i s =>
         match nth s (w_files w) None with
-        | Some f => set_db w i (fst (um_import (uid_of i) dict_name f (get_db w i)))
-        | None => w
+        | Some f =>
+            let (d, n) := um_import (uid_of i) dict_name f (get_db w i) in
+            (set_db w i d, match n with Some k => Z.of_nat k | None => (-1)%Z end)
+        | None => (w, NOFILE)
         end
-    | OMerge i j => set_db w i (merge_db O inits g (uid_of i) (get_db w j) (get_db w i))
-    | OUBackup i s => set_file w s (uniform_backup (get_db w i))
+    | OMerge i j =>
+        (set_db w i (merge_db O inits g (uid_of i) (get_db w j) (get_db w i)),
+         Z.of_nat (merge_count O inits g (get_db w j) (get_db w i)))
+    | OUBackup i s => (set_file w s (uniform_backup (get_db w i)), 1%Z)
     | OURestore i s =>
         match nth s (w_files w) None with
-        | Some f => set_db w i (uniform_restore f (get_db w i))
-        | None => w
+        | Some f => (set_db w i (uniform_restore f (get_db w i)), 1%Z)
+        | None => (w, NOFILE)
         end
     end.
+
+  Definition step (w : world) (o : op) : world := fst (step_ret w o).
 
   Definition run (ops : list op) (w : world) : world := fold_left step ops w.
 End Manager.
